@@ -23,6 +23,8 @@ pub trait IndInst: Send + Sync {
 	/// the same candles carried by a user-defined OHLCV type that overrides provided methods (tp, hl2, ...):
 	/// (results of `over` on a clone, results of `next` one by one on another clone, results of `into_fn`)
 	fn custom_type_runs(&self, cs: &[Candle]) -> (Vec<IndicatorResult>, Vec<IndicatorResult>);
+	/// snapshot + restore through the lossless token format (positional = bincode-like, else named)
+	fn via_tokens(&self, positional: bool) -> Result<Box<dyn IndInst>, String>;
 }
 
 /// A candle type of a user: the same five fields, but its own idea of the derived prices
@@ -125,6 +127,13 @@ where
 	}
 	fn config_json(&self) -> Result<String, String> {
 		serde_json::to_string(self.0.config()).map_err(|e| e.to_string())
+	}
+	fn via_tokens(&self, positional: bool) -> Result<Box<dyn IndInst>, String> {
+		use crate::tokfmt::{restore, snapshot, Flavour};
+		let fl = if positional { Flavour::Positional } else { Flavour::Named };
+		let toks = snapshot(&self.0, fl);
+		let i: I = restore(&toks, fl).map_err(|e| format!("{e} (snapshot of {} tokens)", toks.len()))?;
+		Ok(Box::new(IW(i)))
 	}
 	fn custom_type_runs(&self, cs: &[Candle]) -> (Vec<IndicatorResult>, Vec<IndicatorResult>) {
 		let odd: Vec<OddCandle> = cs.iter().map(|c| OddCandle(*c)).collect();
